@@ -13,15 +13,16 @@ EXTENDS Client, Json, IOUtils, SequencesExt
 
 Rec == ndJsonDeserialize(IOEnv.TRACE)
 
-VARIABLE l
-tvars == <<s, out, l>>
+VARIABLES l,
+          based      \* is the transaction id of the model tied to the implementation's (see Rebase)
+tvars == <<s, out, l, based>>
 
 Ev == Rec[l]
 Is(name) == l <= Len(Rec) /\ Ev.e = name
-Consume == l' = l + 1
+Consume == l' = l + 1 /\ based' = based
 
 TraceInit ==
-  /\ l = 1
+  /\ l = 1 /\ based = TRUE
   /\ s = Init0("session", "tcp", 1, 0, 1, 1, 0)
   /\ out = NoOut
 
@@ -50,8 +51,17 @@ Matches(o, e) ==
 (* a task step: silent, or emitting exactly the next logged event *)
 OnTask ==
   /\ TaskStep
-  /\ IF out' = NoOut THEN l' = l
+  /\ IF out' = NoOut THEN l' = l /\ based' = based
      ELSE l <= Len(Rec) /\ Matches(out', Ev) /\ Consume
+
+\* C11 pins how the transaction id advances, not where it starts.  A run that does not set the first id through the hook
+\* (txid0 = -1: the TCP channel task) reveals it with its first transmitted frame.  Until then no id has had any visible
+\* effect (nothing was outstanding, so nothing was compared), therefore the model's counter is tied to the implementation's
+\* exactly once, silently, at the moment the next logged event is that first frame; every later frame must follow from it.
+Rebase ==
+  /\ ~based /\ Is("tx") /\ Len(Ev.bytes) >= 2 /\ s.cur = NoCur /\ s.framing = "tcp"
+  /\ s' = [s EXCEPT !.txid = (Ev.bytes[1] * 256 + Ev.bytes[2]) % TxMod]
+  /\ based' = TRUE /\ out' = NoOut /\ l' = l
 
 OnCfg ==
   /\ Is("cfg") /\ Quiescent
@@ -59,9 +69,10 @@ OnCfg ==
   \* nothing may be pending from the previous scenario
   /\ \/ l = 1
      \/ s.queue = <<>> /\ s.sendq = <<>> /\ s.pc \in {"idle", "ended", "done", "aborted"}
-  /\ s' = [Init0(Ev.mode, Ev.framing, Ev.queue, Ev.max_timeouts, Ev.retry[1], Ev.retry[2], Ev.txid0)
+  /\ s' = [Init0(Ev.mode, Ev.framing, Ev.queue, Ev.max_timeouts, Ev.retry[1], Ev.retry[2], IF Ev.txid0 >= 0 THEN Ev.txid0 ELSE 0)
              EXCEPT !.portOk = IF "port" \in DOMAIN Ev THEN Ev.port ELSE TRUE]
-  /\ out' = NoOut /\ Consume
+  /\ based' = (Ev.txid0 >= 0)
+  /\ out' = NoOut /\ l' = l + 1
 
 OnSubmit ==
   /\ Is("submit")
@@ -90,7 +101,7 @@ OnPort == Is("port") /\ PortSet(Ev.ok) /\ Consume
 
 OnQuiet == Is("q") /\ Quiescent /\ UNCHANGED <<s, out>> /\ Consume
 
-TraceNext == OnTask \/ OnCfg \/ OnSubmit \/ OnCmd \/ OnPeer \/ OnEof \/ OnWerr \/ OnTick \/ OnConn \/ OnPort \/ OnHold \/ OnQuiet
+TraceNext == OnTask \/ Rebase \/ OnCfg \/ OnSubmit \/ OnCmd \/ OnPeer \/ OnEof \/ OnWerr \/ OnTick \/ OnConn \/ OnPort \/ OnHold \/ OnQuiet
 
 TraceSpec == TraceInit /\ [][TraceNext]_tvars
 
